@@ -14,12 +14,15 @@ LEVEL = "exploration"
 PORTS = [443, 44330, 8443, 9443, 8080, 12345]
 P_OPTS = [None, ["8443"], ["8443", "9443"], ["443"], ["12345", "8080"]]
 M_OPTS = [None, [], ["443:8081"], ["443:8081", "8443:9000"], ["443:8081,", "8443:9000"], ["8443:9000"], ["44330:1"],
-          ["443:8081", "44330:8082", "8443:8083", "9443:8084", "8080:8085", "12345:8086"]]
+          ["443:8081", "44330:8082", "8443:8083", "9443:8084", "8080:8085", "12345:8086"],
+          ["443:443"], ["8443:8443", "443:8081"], ["44330:44330", "8443:443"],
+          # a pair whose left side is the CLIENT port of the first TLS (40001) / first QUIC (40171) flow: the client port never changes
+          ["40001:7", "443:8081"], ["40171:7", "40001:443"]]
 
 
 def describe(tier):
     return {
-        "rule": f"{len(P_OPTS)} -p lists x {len(M_OPTS)} -m variants (absent, bare, pairs with and without trailing commas) x 12 "
+        "rule": f"{len(P_OPTS)} -p lists x {len(M_OPTS)} -m variants (absent, bare, pairs with and without trailing commas, identity pairs, pairs naming a client port) x 12 "
                 "connections (TLS 1.2 and QUIC to each of 6 server ports) in one capture, IPv4 and IPv6 (thorough: further TLS versions). "
                 "non-trivial: a configuration in which at least one flow is exported on a port different from another flow's; "
                 "distinct = distinct (configuration, flow)",
